@@ -7,6 +7,7 @@ package main
 
 import (
 	"bufio"
+	"encoding/json"
 	"fmt"
 	"math/rand"
 	"os"
@@ -651,6 +652,44 @@ func cmdConfirmProgs(args []string) error {
 	return nil
 }
 
+// vh replay-prog mode=mask|sc in=<confirm record .json>: re-executes one reported witness on a freshly parsed rule
+func cmdReplayProg(args []string) error {
+	m := argMap(args)
+	b, err := os.ReadFile(m["in"])
+	if err != nil {
+		return err
+	}
+	var pc progConfirm
+	if err = json.Unmarshal(b, &pc); err != nil {
+		return err
+	}
+	res := map[string]any{"rule": pc.Rule, "witness": pc.Witness}
+	again := false
+	pv := safeCall(func() {
+		r, err := rules.NewNetworkRule(pc.Rule, 1)
+		if err != nil {
+			panic("rule rejected: " + err.Error())
+		}
+		match := r.Match(rules.NewRequest(pc.Witness, "", rules.TypeOther))
+		re, st := r.VerifCompiled()
+		realRe := st == 0 || (st > 0 && re != nil && re.MatchString(pc.Witness))
+		hasSC := strings.Contains(strings.ToLower(pc.Witness), r.Shortcut)
+		res["real_rule_match"], res["real_regexp_accepts"], res["lower_witness_contains_shortcut"] = match, realRe, hasSC
+		if m["mode"] == "mask" {
+			again = realRe != pc.SpecRef
+		} else {
+			again = realRe && !hasSC && !match
+		}
+	})
+	if pv != "" {
+		res["panic"] = pv
+		again = true
+	}
+	res["violates_again"] = again
+	summary(res)
+	return nil
+}
+
 // shortcutCause classifies why a regex shortcut is unsound, from the rule's
 // own syntax tree: it names the construct under which the shortcut text sits.
 func shortcutCause(c progCase, w string) string {
@@ -736,4 +775,5 @@ func requiredLiterals(re *syntax.Regexp) []string {
 func init() {
 	register("export-progs", cmdExportProgs)
 	register("confirm-progs", cmdConfirmProgs)
+	register("replay-prog", cmdReplayProg)
 }
